@@ -1167,6 +1167,21 @@ def absent_weight_branches(rng, tier, specs):
           out.append(dict(label="%s(%s) [quantizer of a weight the layer does not create]" % (cls_name, opt),
                           cls=cls_name, inp=BASE_KW_INPUT.get(cls_name, 1), make=make,
                           key={"layer": cls_name, "qclass": "absent-weight", "option": opt}))
+  # the same packed model also carries: every class with the read literal `implementation` at its
+  # non-default legal value 2 (from_config has a legacy hook on that key: 0 -> 1), built WITHOUT quantizers
+  # and 16 units — with float weights the two implementations differ in the last bit (association order),
+  # with quantized weights they do not, so only such a layer shows a lost `implementation` in its predictions
+  for cls_name in sorted(specs):
+    pnames = [p["name"] for p in specs[cls_name]["params"]]
+    if cls_name in EXCLUDED or "implementation" not in pnames or (cls_name.endswith("Cell") and tier == "quick"):
+      continue
+    def make_impl(name, c=cls_name):
+      if c.endswith("Cell"):
+        return tf.keras.layers.RNN(getattr(Q, c)(16, implementation=2), return_sequences=True, name=name)
+      return getattr(Q, c)(16, implementation=2, return_sequences=True, name=name)
+    out.append(dict(label="%s(16, implementation=2, return_sequences=True) [no quantizers: float arithmetic]" % cls_name,
+                    cls=cls_name, inp=2, make=make_impl,
+                    key={"layer": cls_name, "qclass": "none", "option": "implementation=2"}))
   return [((5,),), ((6, 6, 2),), ((3, 4),), ((6, 4),)], out
 
 
